@@ -15,7 +15,7 @@ From mathcomp Require Import all_ssreflect all_algebra all_real_closed.
 From mathcomp Require Import ssrZ.
 Set Warnings "notation-overridden,ambiguous-paths".
 From LP Require Import UPolySpec RootIsoProofs SturmItv.
-From LP Require Import Scalar RefAlg RefAlgSpec RefAlgValid.
+From LP Require Import Scalar RefAlg RefAlgSpec RefAlgValid RootIsoFull.
 Import GRing.Theory Num.Theory.
 Local Open Scope ring_scope.
 
@@ -246,6 +246,24 @@ Definition C06_libpoly_count_full_statement : Prop :=
   forall (R : rcfType) f J, pis_zero f = false -> (0 < qlo_d J)%R -> (0 < qhi_d J)%R ->
     riq_lt (qlo_n J) (qlo_d J) (qhi_n J) (qhi_d J) ->
     lp_roots_count f (Some J) = Z.of_nat (size [seq x <- rootsR (PR R f) | in_qitv J x]).
+
+(* ---- the count statement is now a THEOREM (RootIsoFull.v).  lp_roots_count is the faithful repaired model of
+   lp_upolynomial_roots_count: content and power of x split off, the square-free factor loop (on the reference
+   gcd / exact division), libpoly's own Sturm sequence per factor (reduce_Z, sign correction), its own
+   zero-skipping sign-change counter with the max_changes cut-off, the open/closed end adjustments, summed over
+   the factors.  Guard: lo < hi (a point interval [a,a] is answered by the model's separate first branch). *)
+Theorem C06_libpoly_count_full : C06_libpoly_count_full_statement.
+Proof. exact lp_roots_count_full. Qed.
+Print Assumptions C06_libpoly_count_full.
+
+(* the model's square-free factor list splits the distinct real roots of f: every factor is non-zero and divides f
+   over Z, and at every real x the multiplicities of x in the factors sum to [x is a root of f] - so every real
+   root of a factor is simple, the factors have pairwise disjoint real roots, and together they have all of them *)
+Theorem C06_libpoly_sqfree_factors : forall (R : rcfType) (f : list Z), PR R f != 0 ->
+  [/\ forall gk, gk \in lp_sqfree_factors f -> PR R gk.1 != 0 /\ GcdSpec.rdvd (Poly gk.1) (Poly f)
+    & forall x : R, (\sum_(gk <- lp_sqfree_factors f) \mu_x (PR R gk.1) = root (PR R f) x :> nat)%N].
+Proof. exact lp_sqfree_factors_spec. Qed.
+Print Assumptions C06_libpoly_sqfree_factors.
 
 (* ---- non-vacuity *)
 Local Close Scope ring_scope.
